@@ -164,7 +164,7 @@ STREAM = {
 }
 
 
-def stream_with_refusals(name, q0, g, a, m, dip):
+def stream_with_refusals(name, q0, g, a, m, dip, feed_raw=False):
     """Feed the samples one at a time; a sample refused with ValueError is skipped (the previous attitude is kept), exactly
     what a caller of update() would do.  Returns (emitted attitudes, indices of refused samples)."""
     from .. import filt
@@ -173,9 +173,12 @@ def stream_with_refusals(name, q0, g, a, m, dip):
     kw = filt.resolve_kw(cfg, dip, None) if kw == "dip" else dict(kw)
     inst = cfg.new(**kw)
     Q, refused = [np.array(q0, float)], []
+    prev = Q[-1].copy()
     for t in range(1, len(g)):
         try:
-            q = np.array(cfg.step(inst, Q[-1].copy(), g[t].copy(), a[t].copy(), m[t].copy()), dtype=float)
+            # feed_raw: the very object update() returned is handed back as the next a-priori attitude (q = f.update(q, ...)), not a plain-array copy of it
+            prev = cfg.step(inst, prev if feed_raw else Q[-1].copy(), g[t].copy(), a[t].copy(), m[t].copy())
+            q = np.array(prev, dtype=float)
         except ValueError:
             refused.append(t)
             q = Q[-1].copy()
@@ -187,7 +190,8 @@ def check_stream(case, ctx, name, g, a, m, gf, af, mf, mask, what, q0):
     """Streaming twin of the dropout case (interior faults only): every value a caller receives from update() is observed."""
     p = case.p
     r = name
-    out = call(stream_with_refusals, name, q0, gf, af, mf, p["dip"])
+    feed_raw = bool(int(case.digest(), 16) % 2)
+    out = call(stream_with_refusals, name, q0, gf, af, mf, p["dip"], feed_raw)
     if not out.ok:
         ctx.ok("streamed dropout is refused with ValueError or survived", False, {"exc": "%s: %s" % (out.exc_name, str(out.exc)[:120]), "where": out.where, "fault": what},
                region=case.region + ":stream:" + out.exc_name)
